@@ -369,10 +369,57 @@ def cholesky(m):
     raise EngineLimit("cholesky of %r" % type(m))
 
 
+def logical_xor(a, b):
+    Assumed.note("jnp.logical_xor / logical_and / logical_or are the element-wise boolean connectives")
+    if _is_tensor(a) or _is_tensor(b):
+        from ..tensor import Tensor, broadcast_shapes
+
+        ta = a if _is_tensor(a) else Tensor((), lambda idx, a=a: _lift(a))
+        tb = b if _is_tensor(b) else Tensor((), lambda idx, b=b: _lift(b))
+        shp, ia, ib = broadcast_shapes(ta.shape, tb.shape)
+        return Tensor(shp, lambda idx: z3.Xor(ta.fn(ia(idx)), tb.fn(ib(idx))))
+    if isinstance(a, bool) and isinstance(b, bool):
+        return a != b
+    return Sym(z3.Xor(_lift(a), _lift(b)))
+
+
+_FillV = {}
+
+
+def take(x, indices, axis=None, mode=None, **kw):
+    """jnp.take(x, indices, axis=0): gather along the leading axis.  DOCUMENTED difference to x[indices]: the default
+    mode is "fill" - an out-of-range index yields NaN / the minimum integer instead of being clamped"""
+    Assumed.note("jnp.take(x, idx, axis=0) = x[idx] for 0 <= idx < n; with the default mode='fill' an out-of-range index yields a fill value (NaN), with mode='clip' the index is clamped")
+    from ..sym import EngineLimit
+    from ..tensor import Tensor, _dterm
+
+    if axis not in (0, None) or not _is_tensor(x) or not _is_tensor(indices) or indices.ndim != 1:
+        raise EngineLimit("jnp.take beyond axis=0 gather with a vector of indices")
+    if axis is None and x.ndim != 1:
+        raise EngineLimit("jnp.take with axis=None on a non-vector")
+    n = _dterm(x.shape[0])
+    g = x[indices]
+    if mode in ("clip", "wrap"):
+        if mode == "wrap":
+            raise EngineLimit("jnp.take mode='wrap'")
+        return Tensor(g.shape, lambda idx: x.fn((z3.If(indices.fn((idx[0],)) < 0, 0, z3.If(indices.fn((idx[0],)) >= n, n - 1, indices.fn((idx[0],)))),) + tuple(idx[1:])))
+    srt = x.elem_sort()
+    key = str(srt)
+    if key not in _FillV:
+        _FillV[key] = z3.Const("TakeFillValue_%s" % key, srt)
+    fill = _FillV[key]
+
+    def fn(idx):
+        i = indices.fn((idx[0],))
+        return z3.If(z3.And(i >= 0, i < n), g.fn(idx), fill)
+
+    return Tensor(g.shape, fn)
+
+
 def namespace(**extra):
     ns = StubNS(
         result_type=result_type, issubdtype=issubdtype, floating="floating", integer="integer", inexact="inexact", complexfloating="complexfloating", number="number",
-        array=array, asarray=asarray, shape=shape, ndim=ndim, where=where, sum=sum, any=any,
+        array=array, asarray=asarray, shape=shape, ndim=ndim, where=where, logical_xor=logical_xor, take=take, sum=sum, any=any,
         minimum=minimum, maximum=maximum, log=log, exp=exp, add=add, ndarray=object, arange=arange, zeros=zeros, ones=ones, mean=mean, repeat=repeat, nan=float('nan'), inf=INF, isfinite=isfinite, isinf=lambda x: ~isfinite(x), cumsum=cumsum, searchsorted=searchsorted, diag=diag, linalg=StubNS(inv=inv, slogdet=slogdet, cholesky=cholesky), zeros_like=lambda x: zeros(x.shape) if hasattr(x, 'shape') and x.shape else Sym(z3.RealVal(0)), concatenate=concatenate,
         float32="float32", int32="int32", bool_="bool", pi=3.141592653589793,
     )
